@@ -106,13 +106,51 @@ func genStream(r *Rng, ts []pduType, nItems int, small bool) (items []streamItem
 	return
 }
 
+// maxFrameItem: a valid PDU whose frame has exactly 65536 (now and then 65535) octets — the largest command_length
+// ReadPDU accepts.  Placed IN FRONT of other frames: an off-by-one in how much is consumed at the limit shows up as
+// mis-framing of the follower.
+func maxFrameItem(r *Rng, ts []pduType) (streamItem, bool) {
+	for try := 0; try < 20; try++ {
+		t := ts[r.Intn(len(ts))]
+		hasTags, hasSkipped := false, false
+		for j := 0; j < t.T.NumField(); j++ {
+			if t.T.Field(j).Type == reflect.TypeOf(pdu.Tags{}) {
+				hasTags = true
+			}
+			if classify(t.T.Field(j).Type) == "FSkipped" {
+				hasSkipped = true
+			}
+		}
+		if !hasTags || hasSkipped {
+			continue
+		}
+		p := genPDU(r, t, modeDomain)
+		target := r.Pick([]int{65536, 65536, 65536, 65535})
+		fillTo(r, p, target)
+		_, err, w, panicked, _ := marshalRec(clonePDU(p))
+		if err == nil && !panicked && len(w.calls) == 1 && len(w.calls[0]) == target {
+			return streamItem{frame: w.calls[0], want: "ok", p: p, t: t}, true
+		}
+	}
+	return streamItem{}, false
+}
+
 // checkStream runs the direct property test for one (stream, schedule) and returns the observations.
 func checkStream(r *Run, items []streamItem, data []byte, sched []int, tag string) []readObs {
-	obs := readAll(data, sched, len(items)+2)
-	r.SetReplay(replayStream(data, sched))
+	return checkStreamAttr(r, items, data, sched, tag, false, 0)
+}
+
+func checkStreamAttr(r *Run, items []streamItem, data []byte, sched []int, tag string, eofWithData bool, zeroEvery int) []readObs {
+	obs := readAllAttr(data, sched, len(items)+2, eofWithData, zeroEvery)
+	rp := replayStream(data, sched)
+	rp["eof_with_data"], rp["zero_every"] = eofWithData, zeroEvery
+	r.SetReplay(rp)
 	in := fmt.Sprintf("readstream %x sched=%s", data, schedString(sched))
 	if len(in) > 3000 {
 		in = fmt.Sprintf("readstream %s sched=%s (seed-derived; %d items)", shortHex(data), schedString(sched), len(items))
+	}
+	if eofWithData || zeroEvery > 0 {
+		in += fmt.Sprintf(" last-read-with-EOF=%v zero-read-every=%d", eofWithData, zeroEvery)
 	}
 	for i, it := range items {
 		if i >= len(obs) {
@@ -193,6 +231,20 @@ func corrC03(r *Run) {
 	for s := 0; s < nStreams; s++ {
 		small := s%3 != 2
 		items, data := genStream(r.Rng, ts, 1+r.Rng.Intn(6), small)
+		if s%10 == 7 {
+			if it, ok := maxFrameItem(r.Rng, ts); ok {
+				at := r.Rng.Intn(2) // first, or behind the first frame; always with something after it
+				if at > len(items)-1 {
+					at = 0
+				}
+				items = append(items[:at:at], append([]streamItem{it}, items[at:]...)...)
+				data = nil
+				for _, x := range items {
+					data = append(data, x.frame...)
+				}
+				small = false
+			}
+		}
 		if s < 2 {
 			r.Sample(map[string]interface{}{"stream_octets": len(data), "frames": len(items), "first_frame": shortHex(items[0].frame)})
 		}
@@ -237,6 +289,18 @@ func corrC03(r *Run) {
 			if j < 2 {
 				emit(data, sched, obs, "random")
 			}
+			// the same composition on a transport that hands out the last octets together with io.EOF, and one that
+			// returns 0, nil now and then: the io.Reader contract allows both, the PDUs returned must not change
+			// (the model's transport has neither; its observation list is the one emitted above)
+			switch j % 3 {
+			case 0:
+				checkStreamAttr(r, items, data, sched, "random+eof-with-data", true, 0)
+			case 1:
+				checkStreamAttr(r, items, data, sched, "random+zero-reads", false, 2+r.Rng.Intn(5))
+			default:
+				checkStreamAttr(r, items, data, []int{total}, "whole+eof-with-data", true, 0)
+			}
+			r.Count(fmt.Sprintf("attr/%d/%d", s, j), true, "schedule attributes (data+EOF, 0-octet reads)")
 		}
 		// (d) truncation at every point of a small stream: the last call is an error, never a PDU
 		if small && s%4 == 0 {
@@ -248,8 +312,10 @@ func corrC03(r *Run) {
 			}
 			for k := 0; k < total; k++ {
 				sched := randomSched(r.Rng, k)
-				r.SetReplay(replayStream(data[:k], sched))
-				obs := readAll(data[:k], sched, len(items)+2)
+				rp := replayStream(data[:k], sched)
+				rp["eof_with_data"], rp["zero_every"] = k%2 == 1, 0
+				r.SetReplay(rp)
+				obs := readAllAttr(data[:k], sched, len(items)+2, k%2 == 1, 0) // every other cut: the last octets arrive together with io.EOF
 				last := obs[len(obs)-1]
 				r.Count(fmt.Sprintf("trunc/%d/%d", s, k), !bounds[k], "truncation point")
 				vol.readmany(data[:k], sched, obs)
